@@ -14,6 +14,7 @@ Load side: every prefix / byte substitutions / special files against the model `
 """
 from __future__ import annotations
 
+import contextlib
 import gzip
 import json
 import os
@@ -955,6 +956,36 @@ def load_contents(chk):
                 yield f"subst:{vi}", "regular", data[:pos] + bytes([v]) + data[pos + 1:]
 
 
+class debug_logging:
+    """DEBUG logging enabled for the whole mopidy logger tree, every record formatted by a handler
+    that discards it."""
+
+    def __enter__(self):
+        import logging
+
+        class Sink(logging.Handler):
+            def emit(self, record):
+                self.format(record)
+
+        self.logging = logging
+        self.prev_disable = logging.root.manager.disable
+        logging.disable(logging.NOTSET)
+        self.logger = logging.getLogger("mopidy")
+        self.prev = (self.logger.level, self.logger.propagate)
+        self.sink = Sink()
+        self.logger.addHandler(self.sink)
+        self.logger.setLevel(logging.DEBUG)
+        self.logger.propagate = False
+        return self
+
+    def __exit__(self, *exc):
+        self.logger.removeHandler(self.sink)
+        self.logger.setLevel(self.prev[0])
+        self.logger.propagate = self.prev[1]
+        self.logging.disable(self.prev_disable)
+        return False
+
+
 def load_stage(chk):
     vlib.setup_impl()
     from mopidy.core import Core
@@ -986,6 +1017,19 @@ def load_stage(chk):
                 obs = "none" if got is None else "some"
             except Exception as e:  # noqa: BLE001
                 got, obs = None, "raise:" + type(e).__name__
+            # the outcome must not depend on the log level: the same call with DEBUG logging enabled
+            # for mopidy (handlers that format every record)
+            with debug_logging():
+                try:
+                    got_d = storage.load(path)
+                    obs_d = "none" if got_d is None else "some"
+                except Exception as e:  # noqa: BLE001
+                    got_d, obs_d = None, "raise:" + type(e).__name__
+            if obs_d != obs or got_d != got:
+                chk.monitor_failure("log_level_independent", {"call": "storage.load", "with_debug": obs_d.split(":")[0]},
+                                    f"storage.load gives {obs} with logging off but {obs_d} with DEBUG logging enabled",
+                                    {"content": label, "size": None if content is None else len(content), "outcome": out,
+                                     "hex": content.hex() if content is not None and len(content) <= 400 else None})
             cls = label.split(":")[0]
             chk.count(1, nontrivial_key=(out, cls, None if content is None else hash(content)) if out != "DOk" else None)
             chk.dist(f"load:{cls}")
@@ -1010,14 +1054,17 @@ def load_stage(chk):
                 for entry in ("_load_state", "_setup"):
                     place()
                     core = Core(config=cfg, mixer=None, backends=[])
+                    dbg = debug_logging() if (i % 2 == 1) else contextlib.nullcontext()
                     try:
-                        if entry == "_setup":
-                            core._setup()
-                        else:
-                            core._load_state(["tracklist", "mode", "play-last", "mixer", "history"])
+                        with dbg:
+                            if entry == "_setup":
+                                core._setup()
+                            else:
+                                core._load_state(["tracklist", "mode", "play-last", "mixer", "history"])
                         raised = None
                     except Exception as e:  # noqa: BLE001
                         raised = type(e).__name__
+                    chk.dist("core:log-level=" + ("DEBUG" if i % 2 == 1 else "off"))
                     still = os.path.lexists(path)
                     chk.count(1)
                     chk.dist(f"core:{entry}")
